@@ -456,3 +456,11 @@ package main
 //@   assert at call store.TopicsPersistenceInterface.CreateP2P [C07] peer_given_p2p: ($2.ModeGiven & ^types.ModeCP2P) == 0 && ($2.ModeGiven & types.ModeApprove) != 0 && ($2.ModeWant & ^types.ModeCP2P) == 0 && ($2.ModeWant & types.ModeApprove) != 0
 //@   assert at call store.TopicsPersistenceInterface.CreateP2P [C07] requester_want_p2p: ($1.ModeWant & ^types.ModeCP2P) == 0 && ($1.ModeWant & types.ModeApprove) != 0
 //@   assert at call store.TopicsPersistenceInterface.CreateP2P [C07] requester_given_p2p: ($1.ModeGiven & ^types.ModeCP2P) == 0
+
+// C12: an API key is accepted only if its last 16 bytes are HMAC-MD5, under the server's salt, of its first 8 bytes,
+// it has the current layout version, and it decodes to exactly 24 bytes; root is granted only by the signed flag byte.
+//@ func checkAPIKey(apikey string) (isValid bool, isRoot bool)
+//@   modifies inferred
+//@   ensures [C12] salted: isValid ==> len(data) == 24 && data[0] == 1 && macMatches("md5", globals.apiKeySalt, data[0:8], data[8:24])
+//@   ensures [C12] root_signed: isRoot ==> isValid && data[7] == 1
+//@   safe
